@@ -70,7 +70,7 @@ Proof.
   destruct (Hall tid Htid) as [_ Hval]. unfold val_of_tid in Hval.
   destruct (find_entry es tid) as [e|] eqn:Ee; [|discriminate].
   destruct (blk_get bl (te_blk e)) as [b|] eqn:Eb; [|discriminate].
-  exists e, b. split; [reflexivity|]. split; [reflexivity|].
+  exists e, b. split; [reflexivity|]. split; [exact Eb|].
   intros groups Hg Hlen.
   assert (Hok : Forall (Forall tok_ok) groups).
   { rewrite Forall_forall. intros g Hgin. rewrite Forall_forall. intros t Ht.
